@@ -401,8 +401,16 @@ contract(
         # the remaining path is a suffix of the path that was asked for
         "implies(result is not None, len(result[2]) <= len(segments) and "
         "all(result[2][j] == segments[len(segments) - len(result[2]) + j] for j in range(len(result[2]))))",
+        # no family found: the set asked has no family root called like the first segment, and a one-segment path is answered
+        # from that set alone (first level of the None case; the deeper levels need nested views, which the solvers reject)
+        "implies(result is None and len(segments) >= 1, first_binding(target_set.values, segments[0], True) is None)",
+        # a family of the set asked itself is found there, with the whole path left over
+        "implies(len(segments) >= 1 and first_binding(target_set.values, segments[0], True) is not None, "
+        "result is not None and result[0] is target_set and len(result[2]) == len(segments))",
     ],
-    loops={0: Loop(invariant=["isinstance(current, AttributeSet) and current < alloc_at_entry()"])},
+    loops={0: Loop(invariant=["isinstance(current, AttributeSet) and current < alloc_at_entry()",
+                              "implies(_i == 0, current is target_set)",
+                              "implies(_i > 0, first_binding(target_set.values, segments[0], True) is None)"])},
     domain=False,
     props=EDIT_PROPS + ["C14"],
 )
@@ -412,6 +420,7 @@ _FAMILY_EXT = External(
     ensures=["heap_unchanged()",
              "implies(result is not None, result[0] is not None and len(result[2]) >= 1 and len(result[2]) <= len(segments))",
              "implies(result is not None, result[1] is not None and result[1] is first_binding(result[0].values, result[2][0], True))",
+             "implies(result is None and len(segments) >= 1, first_binding(target_set.values, segments[0], True) is None)",
              # representation invariant of the AttributeSet handed back (assumed for every set of the document)
              "implies(result is not None, result[0].values is not result[0].attrpath_order and distinct_elems(result[0].values) and "
              "distinct_elems(result[0].attrpath_order))"],
